@@ -258,6 +258,7 @@ Qed.
   End LeavesA.
 
 Section WithOracle.
+  Context {fx : FxEscape}.
   Variable gbk_runes : list N -> Z.
 
   Lemma scan_illegal_progress s lf str s1 :
